@@ -42,8 +42,23 @@ SPEC = {
 }
 
 
-def make_world(seed, rep="tree"):
-    case = {"spec": SPEC, "rep": rep, "decider": "maxdepth", "depth_extra": 3, "seed": seed, "gene_length": 32, "ops": []}
+def deeper_spec(extra):
+    """SPEC wrapped in `extra` productions with a single class-typed field: the starting symbol is
+    then a production and the grammar's minimum depth is 1 + extra."""
+    import copy
+
+    s = copy.deepcopy(SPEC)
+    inner = "A0"
+    for j in range(extra):
+        s["concretes"].append({"name": f"W{j}", "parent": None, "weight": None, "fields": [["f0", ["ref", inner]]]})
+        s["considered"].append(f"W{j}")
+        inner = f"W{j}"
+    s["start"] = inner
+    return s
+
+
+def make_world(seed, rep="tree", extra_depth=0):
+    case = {"spec": SPEC if not extra_depth else deeper_spec(extra_depth), "rep": rep, "decider": "maxdepth", "depth_extra": 3, "seed": seed, "gene_length": 32, "ops": []}
     w = World(case)
     w.build()
     return w
@@ -236,11 +251,12 @@ class Initializers(Facet):
 
     def strategy(self, tier):
         return st.builds(
-            lambda init, k, inj, seed: {"init": init, "k": k, "injected": inj, "seed": seed},
-            st.sampled_from(["standard", "generic", "full", "grow", "pigrow", "ramped", "halfandhalf", "inject", "inject", "inject-individuals"]),
+            lambda init, k, inj, seed, xd: {"init": init, "k": k, "injected": inj, "seed": seed, "extra_depth": xd},
+            st.sampled_from(["standard", "generic", "full", "grow", "pigrow", "ramped", "halfandhalf", "inject", "inject", "inject-individuals", "inject-grow"]),
             st.integers(1, 12),
             st.integers(0, 15),
             st.integers(0, 2**31),
+            st.sampled_from([0, 0, 1, 2, 3]),
         )
 
     def run(self, case, rec):
@@ -255,12 +271,12 @@ class Initializers(Facet):
         )
         from geneticengine.solutions.individual import Individual
 
-        w = make_world(case["seed"])
+        w = make_world(case["seed"], extra_depth=case.get("extra_depth", 0))
         try:
             problem = make_problem(w)
             k = case["k"]
             name = case["init"]
-            rec.label("init:" + name)
+            rec.label("init:" + name, f"grammar-min-depth:{1 + case.get('extra_depth', 0)}")
             d = w.max_depth
             if name == "standard":
                 init = StandardInitializer()
@@ -281,7 +297,7 @@ class Initializers(Facet):
                 progs = [w.rep.create_genotype(w.random) for _ in range(m)]
                 if name == "inject-individuals":
                     progs = [Individual(p, w.rep) for p in progs]
-                init = InjectInitialPopulationWrapper(progs, StandardInitializer())
+                init = InjectInitialPopulationWrapper(progs, GrowInitializer() if name == "inject-grow" else StandardInitializer())
                 rec.label(f"injected:{'0' if m == 0 else ('<k' if m < k else ('==k' if m == k else '>k'))}")
                 rec.nontrivial(case)
             rec.sample(case, limit=2)
@@ -323,7 +339,7 @@ class GPRuns(Facet):
 
         return st.one_of(st.integers(2, 14), st.integers(2, 14 if tier == "quick" else 120)).flatmap(
             lambda pop: st.builds(
-                lambda step, gens, seed, rep: {"popsize": pop, "step": step, "gens": gens, "seed": seed, "rep": rep},
+                lambda step, gens, seed, rep: {"popsize": pop, "step": step, "gens": gens, "seed": seed, "rep": rep, "extra_depth": seed % 4 if seed % 3 == 0 else 0, "init": ["default", "grow", "pigrow", "ramped"][(seed // 7) % 4] if rep == "tree" else "default"},
                 st.one_of(gp_steps(pop), gp_steps(pop), step_strategy()),
                 st.integers(1, 5),
                 st.integers(0, 2**31),
@@ -338,10 +354,14 @@ class GPRuns(Facet):
         from geneticengine.evaluation.sequential import SequentialEvaluator
         from geneticengine.evaluation.tracker import SingleObjectiveProgressTracker
 
-        w = make_world(case["seed"], case["rep"])
+        w = make_world(case["seed"], case["rep"], extra_depth=case.get("extra_depth", 0))
         try:
             problem = make_problem(w)
             seen = []
+            extra = {}
+            if case.get("init", "default") != "default":
+                extra["population_initializer"] = w.initializer(case["init"])
+            rec.label("initializer:" + case.get("init", "default"), f"grammar-min-depth:{1 + case.get('extra_depth', 0)}")
 
             class Spy(SearchRecorder):
                 def register(self, tracker, individual, problem, is_best):
@@ -361,7 +381,7 @@ class GPRuns(Facet):
             rec.sample({"step": step_str(j), "popsize": P, "generations": case["gens"]}, limit=2)
             rec.nontrivial(case)
             tracker = SingleObjectiveProgressTracker(problem, SequentialEvaluator(), recorders=[Spy()])
-            gp = GeneticProgramming(problem=problem, budget=GenBudget(case["gens"]), representation=w.rep, random=w.random, tracker=tracker, population_size=P, step=build_step(j))
+            gp = GeneticProgramming(problem=problem, budget=GenBudget(case["gens"]), representation=w.rep, random=w.random, tracker=tracker, population_size=P, step=build_step(j), **extra)
             try:
                 gp.search()
             except Exception as e:  # noqa: BLE001
